@@ -11,6 +11,7 @@ import (
 	"io"
 	"sort"
 	"strings"
+	"time"
 
 	"github.com/remieven/ysgo"
 	"github.com/remieven/ysgo/variable"
@@ -91,6 +92,7 @@ var _ variable.Storer = (*recStorer)(nil)
 type host struct {
 	dr      *ysgo.DialogueRunner
 	storer  *recStorer
+	mem     *variable.InMemoryStorer // set instead of storer when the library's own storer is used
 	fnLog   []string
 	cmdLog  []string
 	trace   []Ev
@@ -106,6 +108,24 @@ func readers(srcs []string) []io.Reader {
 		rs[i] = strings.NewReader(s)
 	}
 	return rs
+}
+
+// newHostInMemory is newHost with the library's InMemoryStorer instead of the recording one.
+func newHostInMemory(srcs []string, seed string, vars map[string]mval) (*host, error) {
+	h := &host{storer: newRecStorer(), mem: variable.NewInMemoryStorer()}
+	fixed := map[string]mval{}
+	for k, v := range vars {
+		v.fix()
+		fixed[k] = v
+	}
+	loadStore(h.mem, fixed)
+	dr, err := ysgo.NewDialogueRunner(h.mem, seed, readers(srcs)...)
+	if err != nil {
+		return nil, err
+	}
+	h.dr = dr
+	h.register()
+	return h, nil
 }
 
 func newHost(srcs []string, seed string, vars map[string]mval) (*host, error) {
@@ -230,13 +250,27 @@ func (h *host) drive(choices, junk []int, maxEv int, stopAtErr bool) {
 			njunk++
 		}
 		ev := h.step(arg)
-		if ev.K == "end" || ev.K == "panic" || (ev.K == "err" && stopAtErr) {
+		for polls := 0; ev.K == "wait" && polls < 100000; polls++ {
+			// a command that completes by itself (<<wait n>>, asynchronous handlers): not an element; poll again
+			h.trace = h.trace[:len(h.trace)-1]
+			time.Sleep(100 * time.Microsecond)
+			ev = h.step(arg)
+		}
+		if ev.K == "end" || ev.K == "panic" || ev.K == "wait" || (ev.K == "err" && stopAtErr) {
 			return
 		}
 	}
 }
 
 func (h *host) finalStore() map[string]mval {
+	if h.mem != nil {
+		out := map[string]mval{}
+		for k, v := range h.mem.GetValues() {
+			v := v
+			out[k] = toMval(&v)
+		}
+		return out
+	}
 	out := map[string]mval{}
 	for k, v := range h.storer.vals {
 		out[k] = v
